@@ -88,8 +88,37 @@ def h_transfer(eng):
     eng.prove("transfer.consults_cache_iff_caching", z3.BoolVal(log["load"] == 1) == uses_cache)
 
 
-HARNESSES = [("api.load_model/unloadable-cache-file", h_load_unloadable), ("api.transfer_model", h_transfer)]
-EXPECTED_COVER = {"load.unloadable.raises", "transfer.returns"}
+def h_save_over_leftovers(eng):
+    """save_model: whatever an interrupted earlier save (or a writer still in progress) left in the folder -- any of the files
+    save_model itself creates may already exist -- the next save_model completes, and when it returns the cache file holds the
+    complete new dictionary.  (A crash point of save_model is a prefix of its file operations; the states reachable by such prefixes
+    are over-approximated by 'every file it ever opens may or may not exist'.)"""
+    w = A.make_world(eng, with_db=False, minimal_env=True)
+    A.install(eng, w)
+    codegen = bool(eng.choice(2))
+    eng.input("codegen", codegen)
+    opts = VDict([("codegen", codegen), ("cache", True), ("library_folders", VList([])), ("expand_mx", True)])
+    model, objs = A.make_model(eng, {"states": 1, "der_states": 1, "parameters": 1})
+    pre = {}
+    rec = A.run_save(eng, w, model, opts, pre_existing=pre)
+    eng.cover("save.done")
+    # (P) no exception because of files that were already there
+    eng.prove("save.completes_whatever_an_interrupted_save_left_behind", z3.BoolVal(rec["raised"] is None), raised=rec["raised"], opened=rec["opened"])
+    if rec["raised"] is not None:
+        return
+    db_path = "MODEL/M.pymoca_cache"
+    final = [p_ for p_, m_ in rec["opened"] if "w" in m_ or "x" in m_ or "a" in m_]
+    wrote_direct = any(p_ == db_path for p_ in final)
+    moved = any(dst == db_path for src, dst in rec["replaced"])
+    eng.prove("save.cache_file_written_or_moved_into_place", z3.BoolVal(len(rec["dumps"]) == 1 and (wrote_direct or moved)))
+    # no temporary file is left behind by a COMPLETED save (it would otherwise accumulate / block the next writer)
+    stale = [p_ for p_ in final if p_ != db_path and not any(src == p_ for src, dst in rec["replaced"]) and p_ not in rec["removed"]]
+    eng.prove("save.completed_save_leaves_no_temporary_file", z3.BoolVal(not stale), stale=stale)
+
+
+HARNESSES = [("api.load_model/unloadable-cache-file", h_load_unloadable), ("api.transfer_model", h_transfer),
+             ("api.save_model over the leftovers of an interrupted save", h_save_over_leftovers)]
+EXPECTED_COVER = {"load.unloadable.raises", "transfer.returns", "save.done"}
 BOUNDED = True
 LEVEL = "proof"
 TRUSTED = ["pyvc VC generator", "z3 5.1.0",
@@ -104,7 +133,7 @@ ASSUMPTIONS = [
 EXPLANATION = "Exception-flow contract of load_model for every class of incomplete cache file, and of transfer_model for every outcome of load_model."
 MANIFEST = {
     "category": "proof",
-    "text": "load_model is executed symbolically with the cache file absent or unloadable in each of the ways pickle.load is documented to fail, for all folder contents and mtimes: only InvalidCacheError or FileNotFoundError can result; transfer_model is verified to turn exactly those into a recompile whose result is returned (and saved when caching). A bounded replay truncates a real cache file at every offset class and calls the real transfer_model.",
+    "text": "load_model is executed symbolically with the cache file absent or unloadable in each of the ways pickle.load is documented to fail, for all folder contents and mtimes: only InvalidCacheError or FileNotFoundError can result; transfer_model is verified to turn exactly those into a recompile whose result is returned (and saved when caching). save_model itself is executed with every file it opens possibly left over from an interrupted or concurrent earlier save: it still completes, puts the complete dictionary at the cache path and leaves no temporary file. A bounded replay truncates a real cache file at every offset class and calls the real transfer_model.",
     "note": "Assumed: pickle.load's documented exception set and that a strict prefix of a pickle never loads; torn shared-library writes and genuine reader/writer scheduling are outside.",
     "technique": "contract-based deductive verification: exceptional postconditions by whole-function symbolic execution against an assumed pickle/os contract, z3",
 }
